@@ -146,7 +146,41 @@ impl Prop for C05 {
         let mode = gen::pick_mode(rng);
         let mix = FrameMix::swarm(rng);
         let target = gen::session_bytes_target(rng);
-        let frames = gen::gen_frames_to_target(rng, mode, &mix, target, 4000, stats);
+        let mut frames = gen::gen_frames_to_target(rng, mode, &mix, target, 4000, stats);
+        if rng.chance(1, 12) {
+            // boundary session: a frame boundary exactly at (or one frame short of / beyond) the
+            // receive buffer's capacity, so that spare capacity reaches exactly zero
+            let cap = 6120usize * rng.usize(1, 2);
+            let mut total = 0usize;
+            let mut fs: Vec<Vec<u8>> = Vec::new();
+            for f in frames.iter() {
+                if total + f.len() + 4 > cap {
+                    break;
+                }
+                total += f.len();
+                fs.push(f.clone());
+            }
+            // pad with 4-byte TINYs (and, uncompressed only, one odd-sized unknown frame) up to cap + d
+            let d: isize = *rng.pick(&[-4isize, 0, 0, 0, 4]);
+            let goal = (cap as isize + d) as usize;
+            if mode == SizeMode::Uncompressed && (goal - total) % 4 != 0 && goal - total >= 5 {
+                let n = 4 + (goal - total) % 4;
+                let mut odd = vec![0xEEu8; n];
+                odd[0] = n as u8;
+                odd[1] = 200;
+                total += n;
+                fs.push(odd);
+            }
+            while total + 4 <= goal {
+                fs.push(gen::tiny(mode, rng.byte() | 1, 3));
+                total += 4;
+            }
+            // and carry on after the boundary
+            for _ in 0..rng.usize(1, 6) {
+                fs.push(gen::gen_frame(rng, mode, &mix, stats));
+            }
+            frames = fs;
+        }
         let (inbound, ends) = gen::concat(&frames);
         let fault_free = rng.chance(1, 4);
         let cfg = if fault_free {
